@@ -4,6 +4,22 @@ import json, os, subprocess
 HERE = os.path.dirname(os.path.dirname(os.path.abspath(__file__)))
 
 CLAIMED = {
+    "C01": dict(cat="exploration", ref="DESIGN.md 4 (C01)",
+        text="Seeded search over connections (intent, secret, claimed identity, authentication verdict incl. errors and latency, 8 Encryption Response variants, valid and subtly invalid cookies) through the real Connection; history oracle: grant packets require an honest token and a voucher, the service is asked with the connection's secret / key / claim, every later use of the identity (Login Success, filter, strategy, issued cookie) is the vouched one.",
+        note="Scripted authentication service stands in for the session server; independent client codec/RSA/CFB8 trusted (interoperates with the real server on every honest run).",
+        tech="deterministic simulation; history invariants over the recorded event log"),
+    "C02": dict(cat="fault_enumeration", ref="DESIGN.md 4 (C02)",
+        text="The cookie-variant axis (exact, every truncation length, every single-bit flip, other secrets, non-JSON / wrong-shape bodies under a valid tag, absent, empty, untagged) is enumerated by run index over fresh base cookies; intent, configured secret, presenting IP and age-vs-expiry boundaries are sampled. The acceptance predicate is recomputed independently (own HMAC, own JSON shape check, exact wall-clock second).",
+        note="Trusts the oracle's HMAC/JSON check and the simulated wall clock being the only clock read (hook H2).",
+        tech="deterministic simulation; enumerated cookie faults; independent acceptance predicate"),
+    "C03": dict(cat="exploration", ref="DESIGN.md 4 (C03)",
+        text="Seeded routing scenarios (target lists with duplicates and IPv6, every filter/strategy outcome incl. errors, latencies up to 40 s, client locales against random tables through the real FixedLocalizationAdapter); oracle: pipeline wiring equalities from the call log, exactly one final Transfer naming the chosen address or one localized Disconnect, nothing after it.",
+        note="Locale tables lacking the applicable key are don't-care; text components compared as values.",
+        tech="deterministic simulation; wiring equalities + independent locale fallback"),
+    "C10": dict(cat="exploration", ref="DESIGN.md 4 (C10)",
+        text="Two-connection histories (authenticate + route, then present what was stored after a wall-clock gap around the expiry boundary or a backwards step) with secrets of any length, expiry up to 2^64-1, IPv4/IPv6, port changes, session cookie presented or not; oracle: independent HMAC over the issued cookie, body completeness against connection facts and the simulated clock, acceptance and same identity on the second connection, session-cookie rules.",
+        note="Trusts the oracle's HMAC/JSON check; gap beyond expiry is left to C02.",
+        tech="deterministic simulation; two-connection history check with simulated wall clock"),
     "C05": dict(cat="fault_enumeration", ref="DESIGN.md 4 (C05)",
         text="Seeded search over poll-level I/O schedules against the real CipherStream (Pending, prefix acceptance, retry with another buffer, reads down to 1 byte, pre-filled ReadBuf, switch at any operation boundary) plus whole logins through the real Connection under write faults; oracle is an independent CFB8 on the raw AES block function. Samples schedules, does not enumerate them all.",
         note="Trusts the oracle's 25-line CFB8 and the aes crate's block function; transport is the scripted stub.",
